@@ -33,24 +33,59 @@ const (
 	apkDB  = "lib/apk/db/installed"
 )
 
+// osDBFile: PackageDB string of an OS package -> the database file in the image.
+var osDBFile = map[string]string{dpkgDB: dpkgDB, apkDB: apkDB, rpmDBName: rpmDBFile}
+
 var (
 	dpkgNames = []string{"bash", "libc6", "zlib1g", "openssl", "curl", "libssl3"}
 	apkNames  = []string{"musl", "busybox", "zlib", "libcrypto3", "apk-tools"}
+	rpmNames  = []string{"bash", "glibc", "openssl-libs", "libgcc", "tzdata", "dnf"}
 	langNames = map[string][]string{
 		"python": {"requests", "urllib3", "flask", "jinja2"},
 		"nodejs": {"left-pad", "lodash", "express", "ms", "ms-utils"},
 		"ruby":   {"rake", "rails", "rack"},
 		"java":   {"guava", "jackson-core", "log4j-core"},
+		"gobin":  {"app", "tool", "server"},
 	}
 	langDirs = map[string][]string{
 		"python": {"usr/local/lib/python3.11/site-packages", "opt/venv/lib/python3.11/site-packages"},
 		"nodejs": {"usr/local/lib/node_modules", "app/node_modules", "app/node_modules/express/node_modules"},
 		"ruby":   {"usr/local/bundle/specifications", "var/lib/gems/3.1.0/specifications"},
 		"java":   {"opt/app/lib", "usr/share/java"},
+		"gobin":  {"usr/bin", "usr/local/bin", "opt/svc/bin"},
 	}
 	verPoolE2E = []string{"1.0.0", "1.0.1", "1.2.0", "2.0.0", "2.1.3"}
-	langEcos   = []string{"python", "nodejs", "ruby", "java"}
+	langEcos   = []string{"python", "nodejs", "ruby", "java", "gobin", "gobin"}
 )
+
+// goBuild is the executable `name` at version `ver`. Every (name, version) has its own toolchain
+// version, main module version and dependency version, so that no package identity is shared
+// between two builds; shared = built with the common toolchain go1.22.1 and the common dependency
+// golang.org/x/text v0.14.0 (what real images look like).
+func goBuild(name, ver string, shared bool) goBinary {
+	ni, vi := 0, 0
+	for i, n := range langNames["gobin"] {
+		if n == name {
+			ni = i
+		}
+	}
+	for i, v := range verPoolE2E {
+		if v == ver {
+			vi = i
+		}
+	}
+	b := goBinary{
+		GoVersion: fmt.Sprintf("go1.%d.%d", 19+ni, vi),
+		MainPath:  "example.com/" + name,
+		MainVer:   "v" + ver,
+		Deps:      []goDep{{"example.com/" + name + "/dep", "v" + ver}},
+	}
+	if shared {
+		b.GoVersion = "go1.22.1"
+		b.Deps = append(b.Deps, goDep{"golang.org/x/text", "v0.14.0"})
+	}
+	return b
+}
 
 // langFile is one language package file of the history.
 type langFile struct {
@@ -70,6 +105,9 @@ func langPath(eco, dir, name, ver string, inPlace bool) (file, root string) {
 	case "ruby":
 		file = dir + "/" + name + "-" + ver + ".gemspec"
 		return file, file
+	case "gobin":
+		file = dir + "/" + name
+		return file, file
 	default: // java
 		if inPlace {
 			file = dir + "/" + name + ".jar"
@@ -82,6 +120,8 @@ func langPath(eco, dir, name, ver string, inPlace bool) (file, root string) {
 
 func langContent(eco, name, ver string) []byte {
 	switch eco {
+	case "gobin":
+		return goElf(goBuild(name, strings.TrimSuffix(ver, "+shared"), strings.HasSuffix(ver, "+shared")))
 	case "python":
 		return pyMetadata(name, ver)
 	case "nodejs":
@@ -108,8 +148,46 @@ type e2eGen struct {
 	rnd *hx.Rand
 	sc  *scenario
 	// current state
-	dpkg, apk map[string]osPkg
-	lang      []langFile
+	dpkg, apk, rpm map[string]osPkg
+	lang           []langFile
+	nManifests     int
+}
+
+// canCreateOS: a tame history has one distribution family.
+func (g *e2eGen) canCreateOS() bool {
+	return !g.sc.Tame || (g.dpkg == nil && g.apk == nil && g.rpm == nil)
+}
+
+func (g *e2eGen) writeRpm() {
+	var ps []osPkg
+	for _, p := range g.rpm {
+		ps = append(ps, p)
+	}
+	g.sc.b.put(rpmDBFile, rpmDBBytes(ps))
+}
+
+func contentManifest(idx int, sets []string) []byte {
+	q := make([]string, len(sets))
+	for i, s := range sets {
+		q[i] = fmt.Sprintf("%q", s)
+	}
+	return []byte(fmt.Sprintf(`{"metadata":{"icm_version":1,"icm_spec":"x","image_layer_index":%d},"content_sets":[%s],"image_contents":[]}`, idx, strings.Join(q, ",")))
+}
+
+func (g *e2eGen) writeManifest() {
+	all := []string{"rhel-8-for-x86_64-baseos-rpms", "rhel-8-for-x86_64-appstream-rpms", "rhocp-4.14-for-rhel-8-x86_64-rpms"}
+	var sets []string
+	for _, cs := range all {
+		if g.rnd.Chance(1, 2) {
+			sets = append(sets, cs)
+		}
+	}
+	if len(sets) == 0 {
+		sets = all[:1]
+	}
+	g.nManifests++
+	g.sc.b.put(fmt.Sprintf("root/buildinfo/content_manifests/img%d-8.9-%d.json", g.nManifests, g.nManifests), contentManifest(len(g.sc.b.layers), sets))
+	g.op("rhel: content manifest %v", sets)
 }
 
 func (g *e2eGen) op(format string, a ...any) { g.sc.Ops = append(g.sc.Ops, fmt.Sprintf(format, a...)) }
@@ -138,7 +216,8 @@ func (g *e2eGen) writeApk() {
 func (g *e2eGen) osPkg(names []string, arch string) osPkg {
 	n := names[g.rnd.Intn(len(names))]
 	p := osPkg{Name: n, Version: verPoolE2E[g.rnd.Intn(len(verPoolE2E))] + "-" + fmt.Sprint(1+g.rnd.Intn(3)), Arch: arch}
-	if g.rnd.Chance(1, 3) {
+	// the source package is a function of the binary package (as it is for real packages)
+	if len(n)%3 == 0 {
 		p.Source = n + "-src"
 	}
 	return p
@@ -180,9 +259,46 @@ func (g *e2eGen) dropLangUnder(root string) {
 // step performs one build operation in the current layer.
 func (g *e2eGen) step() {
 	b := g.sc.b
-	switch c := g.rnd.Intn(20); {
+	switch c := g.rnd.Intn(24) - 4; {
+	case c < -2: // rpm database of a RHEL image: create / install / upgrade
+		if g.rpm == nil {
+			if !g.canCreateOS() {
+				return
+			}
+			g.rpm = map[string]osPkg{}
+			b.put("etc/redhat-release", []byte("Red Hat Enterprise Linux release 8.9 (Ootpa)\n"))
+			for k := 2 + g.rnd.Intn(3); k > 0; k-- {
+				p := g.osPkg(rpmNames, "x86_64")
+				g.rpm[p.Name] = p
+			}
+			g.op("rpm: create database with %d packages", len(g.rpm))
+			g.writeManifest()
+		} else {
+			p := g.osPkg(rpmNames, "x86_64")
+			g.rpm[p.Name] = p
+			g.op("rpm: install/upgrade %s %s", p.Name, p.Version)
+			if g.rnd.Chance(1, 3) {
+				g.writeManifest()
+			}
+		}
+		g.writeRpm()
+	case c < -1: // rpm erase
+		if len(g.rpm) > 1 {
+			ks := sortedKeys(g.rpm)
+			k := ks[g.rnd.Intn(len(ks))]
+			delete(g.rpm, k)
+			g.op("rpm: erase %s", k)
+			g.writeRpm()
+		}
+	case c < 0: // a layer of a RHEL-based image that only carries a content manifest
+		if g.rpm != nil {
+			g.writeManifest()
+		}
 	case c < 2: // install / refresh a dpkg database
 		if g.dpkg == nil {
+			if !g.canCreateOS() {
+				return
+			}
 			g.dpkg = map[string]osPkg{}
 			b.put("etc/os-release", debianOSRelease("12", "bookworm"))
 			for k := 2 + g.rnd.Intn(3); k > 0; k-- {
@@ -206,6 +322,9 @@ func (g *e2eGen) step() {
 		}
 	case c < 5: // apk
 		if g.apk == nil {
+			if !g.canCreateOS() {
+				return
+			}
 			g.apk = map[string]osPkg{}
 			if g.dpkg == nil {
 				b.put("etc/os-release", alpineOSRelease("3.18.4"))
@@ -235,6 +354,11 @@ func (g *e2eGen) step() {
 		ver := verPoolE2E[g.rnd.Intn(len(verPoolE2E))]
 		dir := langDirs[eco][g.rnd.Intn(len(langDirs[eco]))]
 		inPlace := !g.sc.Tame && g.rnd.Chance(2, 3)
+		if eco == "gobin" && !g.sc.Tame && g.rnd.Chance(1, 2) {
+			// built with the common toolchain and a common dependency: package identities shared between executables
+			ver += "+shared"
+			g.sc.features["gobin-shared-toolchain"] = true
+		}
 		file, root := langPath(eco, dir, name, ver, inPlace)
 		// the same name already installed in this directory?
 		var old *langFile
@@ -329,7 +453,22 @@ func (g *e2eGen) wildStep() {
 		return
 	}
 	b := g.sc.b
-	switch g.rnd.Intn(5) {
+	switch g.rnd.Intn(6) {
+	case 5: // a python and a nodejs package with one name and version: one package id in the store
+		name, ver := "ms", verPoolE2E[g.rnd.Intn(len(verPoolE2E))]
+		for _, x := range g.lang {
+			if x.Eco == "nodejs" || x.Eco == "python" {
+				name, ver = x.Name, x.Version
+			}
+		}
+		for _, eco := range []string{"python", "nodejs"} {
+			file, root := langPath(eco, langDirs[eco][0], name, ver, false)
+			if !b.exists(file) {
+				g.putLang(langFile{Eco: eco, Name: name, Version: ver, Path: file, Root: root})
+				g.op("%s: install %s %s at %s", eco, name, ver, file)
+			}
+		}
+		g.sc.features["shared-id-across-ecosystems"] = true
 	case 0: // the package database directory is deleted (image slimming)
 		if g.apk != nil && g.rnd.Chance(1, 2) {
 			b.rm("lib/apk")
@@ -404,9 +543,10 @@ func genScenario(rnd *hx.Rand, tame bool, maxLayers int) *scenario {
 		k := rnd.Intn(len(sc.layers))
 		at := k + 1 + rnd.Intn(len(sc.layers)-k)
 		dup := sc.layers[k]
-		// tame: a duplicated layer carries no whiteouts and re-creates no language package file
+		// tame, half of the time: a duplicated layer carries no whiteouts and re-creates no package file
+		// (Tame allows any duplicate that overwrites no package file of the layers in between)
 		ok := true
-		if tame {
+		if tame && rnd.Chance(1, 2) {
 			if len(dup.whiteouts()) > 0 {
 				ok = false
 			}
@@ -414,7 +554,7 @@ func genScenario(rnd *hx.Rand, tame bool, maxLayers int) *scenario {
 				if _, isLang := sc.langByContent[string(dup[p].Data)+"\x00"+p]; isLang {
 					ok = false
 				}
-				if p == dpkgDB || p == apkDB {
+				if p == dpkgDB || p == apkDB || p == rpmDBFile {
 					ok = false
 				}
 			}
@@ -551,7 +691,9 @@ func runScenario(r *hx.Run, sc *scenario) {
 	opFlat(r, sc.layers, flat)
 	// inside the hypothesis Tame of index_eq_flatten_partial (evaluated on the abstraction of this
 	// history) nothing is excused
-	strict := opE2EModel(r, sc, idx, fl, digests, flat)
+	em := opE2EModel(r, sc, idx, fl, digests, flat)
+	strict := em.Tame
+	checkDists(r, sc, idx, fl, em, witness)
 	if len(extra) == 0 && len(missing) == 0 {
 		if strict {
 			r.Count("e2e:Tame:equal")
@@ -564,11 +706,35 @@ func runScenario(r *hx.Run, sc *scenario) {
 	finalFiles := flat.files()
 	classes := map[string]string{}
 	unexplained := []string{}
+	// package identities that scanners of two different file ecosystems found (one package id in the store)
+	schemes := map[string]map[string]bool{}
+	noteScheme := func(p *claircore.Package) {
+		if p.Filepath == "" {
+			return
+		}
+		sch, _, _ := strings.Cut(p.PackageDB, ":")
+		id := identityOf(pkgTuple(p, p.PackageDB))
+		if schemes[id] == nil {
+			schemes[id] = map[string]bool{}
+		}
+		schemes[id][sch] = true
+	}
+	for i := range arts {
+		for _, p := range arts[i] {
+			noteScheme(p)
+		}
+	}
+	for _, p := range flatPkgs {
+		noteScheme(p)
+	}
+	crossEco := func(t string) bool { return len(schemes[identityOf(t)]) > 1 }
 	for _, t := range extra {
 		cls := ""
 		db := dbOf(t)
 		switch {
-		case db == dpkgDB || db == apkDB:
+		case crossEco(t):
+			cls = "lang-shared-id-across-ecosystems"
+		case osDBFile[db] != "":
 			// the database is gone from the final image, or lists nothing any more
 			stillListed := false
 			for _, w := range want {
@@ -576,7 +742,7 @@ func runScenario(r *hx.Run, sc *scenario) {
 					stillListed = true
 				}
 			}
-			if _, ok := finalFiles[db]; !ok {
+			if _, ok := finalFiles[osDBFile[db]]; !ok {
 				cls = "os-db-removed"
 			} else if !stillListed {
 				cls = "os-db-emptied"
@@ -602,13 +768,16 @@ func runScenario(r *hx.Run, sc *scenario) {
 					}
 				}
 				switch {
+				case other && strings.HasPrefix(db, "go:"):
+					// the executable was rebuilt in place: the old build's packages stay reported
+					cls = "gobin-overwrite-in-place"
 				case other:
 					// the file is still there but holds another package now
 					cls = "lang-overwrite-in-place"
 				case strings.HasPrefix(fp, "usr/lib/python3/dist-packages/"):
 					// the file is still there, but on the whole image the python scanner skips the
-					// distribution's directory because a dpkg database is present
-					if _, dp := finalFiles[dpkgDB]; dp {
+					// distribution's directory: which package databases it sees differs from the layer's
+					if pyCtx(flat) != pyCtx(sc.layers[li]) {
 						cls = "python-distro-dir-context"
 					}
 				}
@@ -653,23 +822,28 @@ func runScenario(r *hx.Run, sc *scenario) {
 			if pkgTuple(q, q.PackageDB) != t || !strings.HasPrefix(q.Filepath, "usr/lib/python3/") {
 				continue
 			}
-			if _, dp := finalFiles[dpkgDB]; dp {
-				continue
-			}
 			for j := len(sc.layers) - 1; j >= 0; j-- {
 				if e, ok := sc.layers[j][q.Filepath]; ok && !e.Dir {
-					if _, has := sc.layers[j][dpkgDB]; has {
+					if pyCtx(sc.layers[j]) != pyCtx(flat) {
 						distroCtx = true
 					}
 					break
 				}
 			}
 		}
-		if distroCtx {
+		if crossEco(t) {
+			if _, ok := classes["lang-shared-id-across-ecosystems"]; !ok {
+				classes["lang-shared-id-across-ecosystems"] = t
+			}
+		} else if distroCtx {
 			if _, ok := classes["python-distro-dir-context"]; !ok {
 				classes["python-distro-dir-context"] = t
 			}
-		} else if twoPaths && dbOf(t) != dpkgDB && dbOf(t) != apkDB {
+		} else if twoPaths && strings.HasPrefix(dbOf(t), "go:") {
+			if _, ok := classes["gobin-shared-package"]; !ok {
+				classes["gobin-shared-package"] = t
+			}
+		} else if twoPaths && osDBFile[dbOf(t)] == "" {
 			if _, ok := classes["lang-same-package-two-paths"]; !ok {
 				classes["lang-same-package-two-paths"] = t
 			}
@@ -691,6 +865,71 @@ func runScenario(r *hx.Run, sc *scenario) {
 	if len(unexplained) > 0 {
 		r.Fail("", witness("index != flatten: "+strings.Join(unexplained, "; ")))
 	}
+}
+
+// checkDists: the distribution side of the statement. When every OS ecosystem's distribution
+// scanner sees one and the same distribution wherever its file exists (and the file is never
+// hidden), each reported package is tagged with exactly the distributions it is tagged with when
+// the flattened image is indexed (theorem index_dist_eq_flatten_partial).
+func checkDists(r *hx.Run, sc *scenario, idx, fl indexResult, em e2eModel, witness func(string) string) {
+	if !em.DistStable {
+		r.Count("e2e:dist:changes-between-layers(not compared)")
+		return
+	}
+	view := func(ir *claircore.IndexReport) map[string]string {
+		m := map[string]map[string]bool{}
+		for id, p := range ir.Packages {
+			for _, e := range ir.Environments[id] {
+				if osDBFile[e.PackageDB] == "" {
+					continue
+				}
+				t := pkgTuple(p, e.PackageDB)
+				if m[t] == nil {
+					m[t] = map[string]bool{}
+				}
+				m[t][distName(ir.Distributions[e.DistributionID])] = true
+			}
+		}
+		out := map[string]string{}
+		for t, ds := range m {
+			var xs []string
+			for d := range ds {
+				xs = append(xs, d)
+			}
+			sort.Strings(xs)
+			out[t] = strings.Join(xs, "+")
+		}
+		return out
+	}
+	a, b := view(idx.Report), view(fl.Report)
+	n := 0
+	for t, da := range a {
+		db, ok := b[t]
+		if !ok {
+			continue
+		}
+		n++
+		if da != db {
+			r.Fail("", witness(fmt.Sprintf("distribution of %s: layered index says %s, index of the flattened image says %s", t, da, db)))
+			return
+		}
+	}
+	if n > 0 {
+		r.Count("e2e:dist:compared")
+	}
+}
+
+// pyCtx: what decides whether the python scanner skips usr/lib*/python[23]* in a file system —
+// an rpm database (pattern usr/lib*/python[23].*) takes precedence over a dpkg database
+// (pattern usr/lib*/python[23]).
+func pyCtx(l layerFS) string {
+	if e, ok := l[rpmDBFile]; ok && !e.Dir {
+		return "rpm"
+	}
+	if e, ok := l[dpkgDB]; ok && !e.Dir {
+		return "dpkg"
+	}
+	return ""
 }
 
 func bucket(n int) int {
@@ -773,8 +1012,9 @@ func opIndexFromStore(r *hx.Run, idx indexResult, digests []string) {
 		layers = append(layers, short[d])
 		digestNames[d] = short[d]
 	}
-	kindOf := []string{"linux", "linux", "lang", "lang", "lang", "lang", "wh"}
+	kindOf := ecoKinds
 	var parts []string
+	var allArts [][]mLayer
 	for ei, e := range ecosystems(ctx) {
 		ps, _ := e.PackageScanners(ctx)
 		ds, _ := e.DistributionScanners(ctx)
@@ -812,6 +1052,14 @@ func opIndexFromStore(r *hx.Run, idx indexResult, digests []string) {
 			arts = append(arts, l)
 		}
 		parts = append(parts, kindOf[ei]+"="+encArts(arts))
+		allArts = append(allArts, arts)
+	}
+	if orderSensitive(allArts) {
+		// one package id with different Package values in two ecosystems: the finished report depends on
+		// which coalescer goroutine finished last (finding lang-shared-id-across-ecosystems); the pure
+		// layer compares MergeSR in every order instead
+		r.Count("idx:from-real-scanners:skipped(report depends on goroutine order)")
+		return
 	}
 	op := "idx " + strings.Join(layers, ",") + " " + strings.Join(parts, " ")
 	if strings.ContainsAny(strings.Join(parts, ""), " \t") {
@@ -819,6 +1067,38 @@ func opIndexFromStore(r *hx.Run, idx indexResult, digests []string) {
 	}
 	r.Op(op, renderReport(idx.Report, false, true)+" "+renderRecords(idx.Report), len(digests) > 1)
 	r.Count("idx:from-real-scanners")
+}
+
+// orderSensitive: some package id occurs in the artifacts of two ecosystems with different
+// Package values (what MergeSR's `source.Packages[k] = v` makes order dependent).
+func orderSensitive(ecos [][]mLayer) bool {
+	seen := map[string]map[int]string{} // id -> ecosystem -> rendering
+	for ei, arts := range ecos {
+		for _, l := range arts {
+			for _, p := range l.Pkgs {
+				v := strings.Join([]string{p.Name, p.Version, p.Kind, p.Arch, p.Src, p.FP}, "~")
+				if seen[p.ID] == nil {
+					seen[p.ID] = map[int]string{}
+				}
+				if old, ok := seen[p.ID][ei]; ok && old != v {
+					v = old + "|" + v
+				}
+				seen[p.ID][ei] = v
+			}
+		}
+	}
+	for _, m := range seen {
+		var first string
+		n := 0
+		for _, v := range m {
+			if n > 0 && v != first {
+				return true
+			}
+			first = v
+			n++
+		}
+	}
+	return false
 }
 
 // opFlat: Go's flatten against Model/LayerFS.lean's flatten.
